@@ -719,7 +719,7 @@ void ICMPv6::try_parse_extensions(InputMemoryStream& stream) {
 }
 
 bool ICMPv6::are_extensions_allowed() const {
-    return type() == TIME_EXCEEDED;
+    return type() == TIME_EXCEEDED || type() == DEST_UNREACHABLE;
 }
 
 // ********************************************************************
